@@ -129,9 +129,14 @@ def check_idwords_stepid(ctx, only_stepid=False):
                 tests = [s2.test for s2 in iter_stmts(st.body) if isinstance(s2, ast.If)]
                 if tests:
                     found = (st, tests[0])
-            if isinstance(st, ast.Assign) and isinstance(st.targets[0], ast.Name) and st.targets[0].id in ('lays', 'i') and \
-                    any(isinstance(n, (ast.Compare,)) for n in walk_expr(st.value)):
-                found = (st, st.value)
+            if isinstance(st, ast.Assign) and isinstance(st.targets[0], ast.Name):
+                # the index array of the records that differ from record 0: where(<comparison>)
+                wh = [c for c in walk_expr(st.value) if isinstance(c, ast.Call) and (dotted(c.func) or '').split('.')[-1] in ('where', 'nonzero', 'flatnonzero')
+                      and any(isinstance(n, ast.Compare) for a in c.args for n in ast.walk(a))]
+                if wh:
+                    found = (st, wh[0])
+                elif st.targets[0].id in ('lays', 'i') and found is None and any(isinstance(n, (ast.Compare,)) for n in walk_expr(st.value)):
+                    found = (st, st.value)
         if found is None:
             ctx.undec('R-STEPID', fmt, w, 'time-step detection idiom not recognised')
         else:
